@@ -39,7 +39,7 @@ HdrMatch(e, o) ==
 ItemMatch(ei, oi) ==
   /\ ei.k = oi.k /\ ei.t = oi.t /\ ei.kf = oi.kf
   /\ IF ei.data = AnyData THEN ei.w \subseteq SeqToSet(oi.w) ELSE (ei.data = oi.data /\ ei.w = SeqToSet(oi.w))
-EndMatch(ee, oe) == ee.r = oe.r /\ ee.e = oe.e /\ ee.w = SeqToSet(oe.w) /\ oe.io = (ee.e = "eof")
+EndMatch(ee, oe) == ee.r = oe.r /\ ee.e = oe.e /\ ee.w = SeqToSet(oe.w) /\ oe.io = (ee.r = "err" /\ ee.e = "eof")
 
 \* index of the first item on which expectation and observation differ (Len + 1: they differ in how reading ends;
 \* 0: they do not differ)
